@@ -9,8 +9,23 @@ ASSUMPTIONS = ['a decoded request is abstracted as: ids and function code arbitr
 PROP = 'C09'
 
 
+def listen_only_lemma(E):
+    """which responses are "listen-only": the one the real ForceListenOnlyModeRequest.execute builds says should_respond False - the serve
+    lemmas prove that such a response puts nothing on the wire - and every other response class, built by its real constructor the way
+    the request classes build it (no should_respond argument), says True.  The flag is read the way the front-ends read it (attribute)"""
+    from . import codecs as C
+    req = E.new('pymodbus.diag_message.ForceListenOnlyModeRequest')
+    resp = E.method(req, 'execute')
+    E.prove('listen-only:the-response-of-force-listen-only-mode-asks-for-silence', E.get(resp, 'should_respond') is False)
+    names = sorted(set(c.cls for c in C.all_codecs() if c.direction == 'rsp' and not c.cls.endswith('ForceListenOnlyModeResponse')))
+    names.append('pymodbus.pdu.ExceptionResponse')
+    for q in names:
+        m = E.new(q, 1) if q.endswith('ExceptionResponse') else E.new(q)
+        E.prove('listen-only:every-other-response-is-to-be-sent[%s]' % q.split('.')[-1], E.get(m, 'should_respond') is True)
+
+
 def get_units():
-    us = []
+    us = [Unit('%s/listen_only' % PROP, listen_only_lemma, [PROP], functions=['pymodbus.diag_message.ForceListenOnlyModeRequest.execute', 'pymodbus.pdu.ModbusResponse.__init__'])]
     for fe in S.FRONTENDS:
         us.append(Unit('%s/unicast.%s' % (PROP, fe), S.serve_unicast(fe, PROP, finding='C09-F1'), [PROP], functions=S.FUNCS[fe]))
         if S.FRONTENDS[fe][2]:
